@@ -43,9 +43,15 @@ def callers_of(prog, path):
     return set(cg.callers(path))
 
 
-def inlinable(prog, callee, into_root):
-    """may `callee` (Body) be inlined into the body whose root path is `into_root`"""
+def inlinable(prog, callee, into_root, keep=None, private_only=False, expanded=()):
+    """may `callee` (Body) be inlined into the body whose root path is `into_root`.
+    keep: regex of callee paths that must stay calls (the functions a rule anchors on); private_only: skip `pub` items;
+    expanded: paths already expanded into the root (so that a -> h1 -> h2 expands fully: h2's caller h1 counts as the root)."""
     if callee is None or callee.kind not in ("Fn", "AssocFn") or callee.impl_trait:
+        return False
+    if keep and re.search(keep, callee.path):
+        return False
+    if private_only and (callee.j.get("vis") or "") == "Public":
         return False
     if len(callee.blocks) > MAX_BLOCKS or not callee.file.startswith("src/"):
         return False
@@ -60,14 +66,19 @@ def inlinable(prog, callee, into_root):
     for c in cs:
         cb = prog.body(c)
         roots.add((cb.closure_root or cb.path) if cb is not None else c)
-    return roots <= {into_root} and bool(roots)
+    return roots <= ({into_root} | set(expanded)) and bool(roots)
 
 
-def inlined(prog, path, depth=MAX_DEPTH):
-    """Body for `path` with inlinable callees expanded (cached on the program); the body itself when nothing is inlinable"""
+def inlined(prog, path, depth=MAX_DEPTH, keep=None, private_only=False, nested=False):
+    """Body for `path` with inlinable callees expanded (cached on the program); the body itself when nothing is inlinable.
+    The goto that replaces an expanded call carries `inl_call` (callee path), `inl_dest` (the call's destination place) and
+    `inl_ret_t` (the block the call returned to); argument-passing statements carry `inl_arg`, the result copy `inl_ret`."""
     cache = prog.__dict__.setdefault("_inl_cache", {})
-    if path in cache:
-        return cache[path]
+    ckey = (path, keep, private_only, depth, nested)
+    if ckey in cache:
+        return cache[ckey]
+    path_key = path
+    path = path_key
     from .mir import Body
     base = prog.body(path)
     if base is None:
@@ -80,6 +91,7 @@ def inlined(prog, path, depth=MAX_DEPTH):
     locals_ = base.locals
     vars_ = base.j["vars"]
     n_inl = 0
+    expanded = set()
     while work:
         bb = work.pop(0)
         blk = blocks[bb]
@@ -89,7 +101,7 @@ def inlined(prog, path, depth=MAX_DEPTH):
         f = t["fn"]
         cpath = f.get("resolved") if f.get("resolved_local") else (f.get("path") if f.get("local") else None)
         callee = prog.body(cpath) if cpath else None
-        if callee is None or len(t["args"]) != callee.arg_count or not inlinable(prog, callee, root):
+        if callee is None or len(t["args"]) != callee.arg_count or not inlinable(prog, callee, root, keep, private_only, expanded if nested else ()):
             continue
         if blk["cleanup"]:
             continue
@@ -106,7 +118,8 @@ def inlined(prog, path, depth=MAX_DEPTH):
         for k, a in enumerate(t["args"]):
             blk["stmts"].append({"k": "assign", "place": {"l": lo + 1 + k, "p": []}, "rv": {"k": "use", "a": a}, "line": t.get("line", 0), "exp": False, "expk": "", "inl_arg": callee.path})
         dest, target, line = t["dest"], t["t"], t.get("line", 0)
-        blk["term"] = {"k": "goto", "t": bo, "inl_call": callee.path, "line": line}
+        blk["term"] = {"k": "goto", "t": bo, "inl_call": callee.path, "inl_dest": dest, "inl_ret_t": target, "line": line}
+        expanded.add(callee.path)
         for i, cb in enumerate(callee.blocks):
             nb = _shift(cb, lo, bo)
             nb["inl_from"] = cb.get("inl_from") or callee.path
@@ -118,11 +131,11 @@ def inlined(prog, path, depth=MAX_DEPTH):
             work.append(bo + i)
         n_inl += 1
     if j is None:
-        cache[path] = base
+        cache[ckey] = base
         return base
     j["inlined_calls"] = n_inl
     nb = Body(j, prog)
-    cache[path] = nb
+    cache[ckey] = nb
     return nb
 
 
